@@ -182,6 +182,22 @@ fn eval_write(c: &Case, pred: Option<&Op12>, rep: &mut Report) -> Result<Fails, 
                     fails.push(("row-slice".into(), vec![format!("chip={}", CHIP_NAMES[chip]), "length".into()], format!("chip {} received {} bytes, owns {}", CHIP_NAMES[chip], data[0].nparams, n)));
                 } else if data[0].hash != h {
                     fails.push(("row-order".into(), vec![format!("chip={}", CHIP_NAMES[chip])], format!("chip {} received the right number of bytes but different content / order", CHIP_NAMES[chip])));
+                } else if c.win.is_none() {
+                    // "at the matching local position": a full-frame write carries no window of its own, so where the
+                    // bytes land is decided by the state the previous call left the sub-display in (partial mode and
+                    // its window registers); judged on the controller model's memory
+                    let b = rig.board.borrow();
+                    let ch = &b.chips[chip];
+                    let pl = &ch.planes[if c.plane2 { 1 } else { 0 }];
+                    let (mh, ml) = fnv_bytes(pl.data.iter());
+                    if ml == n {
+                        rep.count("full_frame_memory_images_compared", 1);
+                        if mh != h {
+                            fails.push(("local-position".into(), vec![format!("chip={}", CHIP_NAMES[chip])], format!("chip {} received its bytes in order but its image memory does not hold them at the matching local positions (partial mode {} when the data arrived)", CHIP_NAMES[chip], ch.partial_mode)));
+                        }
+                    } else {
+                        rep.count("full_frame_memory_compare_skipped", 1);
+                    }
                 }
             }
         }
@@ -575,6 +591,11 @@ pub fn run(ctx: &Ctx) -> Report {
             Op12::Refresh,
             Op12::RefreshPartial(w),
             Op12::BeginRefresh,
+            // the asynchronous partial refresh returns without the blocking wrapper's epilogue; a small fixed
+            // window as well, so that full-frame writes follow a refresh of less than the panel
+            Op12::BeginRefreshPartial(w),
+            Op12::BeginRefreshPartial((64, 40, 128, 24)),
+            Op12::RefreshPartial((1232, 976, 72, 8)),
             Op12::SetMode(9),
             Op12::SetLut(0x22, vec![7; 11]),
             Op12::PowerOff,
